@@ -110,12 +110,12 @@ Lemma align_replaces : forall t p m, length t <= length p ->
 Proof.
   intros t p m Hle. unfold align. destruct (Nat.eqb (length t) (length p)) eqn:E1.
   - assert (Hst : align_start (length t) (length p) m = 0).
-    { destruct m; unfold align_start; try lia. replace (length p - length t) with 0 by lia. reflexivity. }
+    { destruct m; unfold align_start; lia. }
     rewrite Hst. cbn [firstn Nat.add app]. rewrite skipn_all2 by lia. rewrite app_nil_r. reflexivity.
   - destruct (Nat.ltb (length p) (length t)) eqn:E2; [lia|].
     pose proof (half_le (length p - length t)) as Hh. destruct m; unfold align_start, substr.
     + cbn [firstn Nat.add app]. f_equal. apply firstn_all2. rewrite skipn_length. lia.
-    + cbn [skipn]. f_equal. f_equal. rewrite skipn_all2 by lia. reflexivity.
+    + cbn [skipn]. f_equal. rewrite skipn_all2 by lia. rewrite app_nil_r. reflexivity.
     + cbn [skipn]. f_equal. f_equal. rewrite (Nat.add_comm (length t)). apply firstn_all2. rewrite skipn_length. lia.
 Qed.
 
